@@ -47,7 +47,7 @@ P = {
  "C13": ("SEQ", "bounded-exhaustive op sequences; I/O-trace emptiness + metamorphic restart comparison for every rejected/no-op call",
          "For every rejected or no-op call in every explored history: the I/O and frame trace of the call is empty, bytes==0, state and flushed WAL bytes unchanged, and the history without those calls restarts to the same state. Two policies.",
          "Trusts the fs shim to see every write (all file access of the crate goes through it).", "5 C13"),
- "C14": ("SEQ", "bounded-exhaustive op sequences run in lock-step under 7 policy/clock configurations (differential, model-free)",
+ "C14": ("SEQ", "bounded-exhaustive op sequences run in lock-step under 11 policy/clock configurations (differential, model-free)",
          "Every history incl. explicit persists is executed under each policy configuration (virtual clock for OnDelay); all outcomes, byte counts and observable states must agree pairwise, live and after restart.",
          "Model used only to resolve state-relative op arguments.", "5 C14"),
  "C15": ("SEQ", "bounded-exhaustive op sequences at every cursor alignment; byte accounting vs. frame and file-write events",
